@@ -521,7 +521,7 @@ theorem flow_inv_is_c06_spec (acl : Bool) (s : Bytes) (isn : Nat) (f : Flow) (h 
     stream satisfies the invariant for the stream that starts one past the SYN's sequence number — including the data the
     SYN itself may carry (TCP Fast Open), which has been handed over as `expectedHanded1` says -/
 theorem syn_starts_client (cfg : Cfg) (sc : Bytes) (p : Pkt) (hs : sc.length < 2147483648)
-    (hi : cfg.ignC = false) (h1 : p.syn = true) (h2 : p.rst = false) (h3 : p.fin = false)
+    (hi : cfg.ignC = false) (hrec : cfg.recovery = none) (h1 : p.syn = true) (h2 : p.rst = false) (h3 : p.fin = false)
     (hp : pktOK sc (wrap32 (p.seq + 1)) [] p) :
     (∃ D', FlowInv cfg.acl sc (wrap32 (p.seq + 1)) (after (Stream.ofPacket cfg p) p).client (dirStep sc (wrap32 (p.seq + 1)) [] p) D') ∧
     (Stream.ofPacket cfg p).client.handed p = expectedHanded1 cfg.acl sc (wrap32 (p.seq + 1)) [] p := by
@@ -532,18 +532,21 @@ theorem syn_starts_client (cfg : Cfg) (sc : Bytes) (p : Pkt) (hs : sc.length < 2
   simp only [if_true] at ha
   rw [ha]
   have hds : p.dataSeq = wrap32 (p.seq + 1) := by unfold Pkt.dataSeq; simp [h1]
-  exact flow_step_syn cfg.acl sc (Stream.ofPacket cfg p).client p.dataSeq p hs rfl hi rfl h1 h2 h3 hp
+  exact flow_step_syn cfg.acl sc (Stream.ofPacket cfg p).client p.dataSeq p hs rfl hi
+    (by simp [Stream.ofPacket, Flow.configure, hrec]) rfl h1 h2 h3 hp
 
 /-- how a lifetime starts, attached mid-stream: both flows of the stream created for a non-SYN packet are forced to
     ESTABLISHED before the packet is processed, with empty trackers expecting the packet's own sequence number (client
     direction) and its acknowledgement number (server direction): both satisfy the invariant, with no arrival yet -/
 theorem attach_starts (cfg : Cfg) (sc ss : Bytes) (p : Pkt) (hsyn : (p.syn && !p.ackf) = false)
-    (hic : cfg.ignC = false) (his : cfg.ignS = false) :
+    (hic : cfg.ignC = false) (his : cfg.ignS = false) (hrec : cfg.recovery = none) :
     FlowInv cfg.acl sc p.dataSeq (fresh cfg p).client [] [] ∧ FlowInv cfg.acl ss p.ack (fresh cfg p).server [] [] := by
   unfold fresh
   simp only [hsyn, Bool.false_eq_true, if_false]
-  exact ⟨⟨by simp [Stream.established], hic, ⟨rfl, trivial, fun _ => rfl, fun _ => rfl⟩⟩,
-         ⟨by simp [Stream.established], his, ⟨rfl, trivial, fun _ => rfl, fun _ => rfl⟩⟩⟩
+  exact ⟨⟨by simp [Stream.established], hic, by simp [Stream.established, Stream.ofPacket, Flow.configure, hrec],
+           ⟨rfl, trivial, fun _ => rfl, fun _ => rfl⟩⟩,
+         ⟨by simp [Stream.established], his, by simp [Stream.established, Stream.ofPacket, Flow.configure, hrec],
+           ⟨rfl, trivial, fun _ => rfl, fun _ => rfl⟩⟩⟩
 
 /-! non-vacuity of section 9: a client stream of 5 bytes at an ISN just below the wrap point, connection 1.2.3.4:1234 ->
     5.6.7.8:80 interleaved with another connection (same hosts, other client port); the segments arrive out of order with
@@ -625,6 +628,51 @@ example :
     (F.streams.map (fun e => e.2.client.ignoreData)) = [true] ∧ LiveThrough cfgI identOf Ident.lt F histX (identOf synX) ∧
     handedIn (identOf synX) true (Model.run cfgI F histX).2.flatten = [] := by
   refine ⟨by decide, by decide, by decide⟩
+
+
+/-! ## 11. recovery mode (`Stream::enable_recovery_mode`)
+
+  Recovery mode is part of the model (`Cfg.recovery`, `Flow.recEnd`, `Flow.recover`) and of the correspondence; every theorem
+  above that is stated for all configurations covers it (identity, announce_once, forget_iff / forget_reason, memory_bound,
+  sacked_limit, route_correct, flow_is_fold, ignore_data, callback_not_set_path).  `per_flow_delivery_*` asks for a flow
+  without a recovery handler (`FlowInv.rc`): while the handler is installed the flow deliberately skips holes. -/
+
+/-- **recovery_skips_hole.**  What the handler does: an out-of-order segment lying ahead of the expected sequence number and
+    inside the recovery window (plain `uint32_t` comparisons, as in `Stream::recovery_mode_handler`), on a flow with nothing
+    buffered, makes the flow jump to the segment — the hole before it is given up — and the segment is delivered at once
+    (out-of-order callback, then data callback with the segment appended); the handler stays bound to the direction exactly
+    while the window's end lies beyond the segment. -/
+theorem recovery_skips_hole (f : Flow) (p : Pkt) (d : Bytes) (e : Nat)
+    (hi : (f.pre p).ignoreData = false) (hp : p.payload = some d) (hr : (f.pre p).recEnd = some e)
+    (hb : (f.pre p).tr.buf = []) (hahead : seqCompare p.dataSeq (f.pre p).tr.seq > 0)
+    (hwin : p.dataSeq > (f.pre p).tr.seq ∧ p.dataSeq ≤ e) (h0 : 0 < d.length) (hn : d.length < 2147483648) :
+    (f.processPacket p).2.1 = some (p.dataSeq, d) ∧ (f.processPacket p).2.2 = true ∧
+    (f.processPacket p).1.tr.payload = (f.pre p).tr.payload ++ d ∧
+    (f.processPacket p).1.tr.seq = wrap32 (p.dataSeq + d.length) ∧ (f.processPacket p).1.tr.buf = [] ∧
+    (f.processPacket p).1.recEnd = (if e > p.dataSeq then some e else none) :=
+  Tins.SF.recovery_skips_hole f p d e hi hp hr hb hahead hwin h0 hn
+
+/-- a flow without a recovery handler never gets one (the handler is only installed from the new-stream callback) -/
+theorem recovery_stays_off (acl : Bool) (f : Flow) (p : Pkt) (h : f.recEnd = none) : (f.stepIn acl p).recEnd = none := by
+  have hr : (f.pre p).recEnd = none := by rw [pre_recEnd]; exact h
+  by_cases hi : (f.pre p).ignoreData = true
+  · have : f.processPacket p = (f.pre p, none, false) := by unfold Flow.processPacket; simp [hi]
+    unfold Flow.stepIn; rw [this]; exact hr
+  · have hi : (f.pre p).ignoreData = false := by simpa using hi
+    cases hp : p.payload with
+    | none => unfold Flow.stepIn; rw [processPacket_none f p hp]; exact hr
+    | some d => rw [(stepIn_some acl f p d hi hr hp).2.2.2.1]; exact hr
+
+/-- non-vacuity: attached mid-stream with a recovery window of 100; the first segment the capture sees after the one it
+    attached on lies 10 bytes ahead: the hole is skipped, the segment delivered, the handler stays -/
+example :
+    let cfgR : Cfg := { cfg0 with attach := true, recovery := some 100 }
+    let p0 := dX 1000 [1] 1002
+    let p1 := dX 1011 [7, 8] 1003
+    let r := Model.run cfgR Follower.empty [p0, p1]
+    handedIn (identOf p0) true r.2.flatten = [[1], [7, 8]] ∧
+    (r.1.streams.map (fun e => (e.2.client.tr.seq, e.2.client.recEnd))) = [(1013, some 1100)] := by
+  decide
 
 
 end Tins.Props.C07
